@@ -461,6 +461,10 @@ pixman_filter_create_separable_convolution (int             *n_values,
     height = filter_width (reconstruct_y, sample_y, sy);
     subsample_y = (1 << subsample_bits_y);
 
+    /* the header stores both sizes as 16.16 fixed point numbers */
+    if (width > 32767 || height > 32767)
+	return NULL;
+
     *n_values = 4 + width * subsample_x + height * subsample_y;
     
     params = malloc (*n_values * sizeof (pixman_fixed_t));
